@@ -279,9 +279,16 @@ func (h *H) brokerSend(qos byte, payloadLen int) *refmqtt.OutMsg {
 	}
 	var m *refmqtt.OutMsg
 	h.WithLock(func() {
+		// (a writer of the client may have lost the connection meanwhile)
+		if c = h.CurrentLocked(); c == nil || !c.State.Accepted {
+			return
+		}
 		m = h.Broker.NewMessage(qos, topic, payload, false, 0)
 		c.SendLocked(h.Broker.PublishBytes(m, c.N))
 	})
+	if m == nil {
+		return nil
+	}
 	h.Act("brokerSend qos=%d topic=%q len=%d id=%#04x", qos, topic, payloadLen, m.ID)
 	h.settleInbound()
 	return m
